@@ -771,7 +771,7 @@ func (view *View) Limit(ctx context.Context, scope *ReferenceScope, clause parse
 		return nil
 	}
 
-	if clause.WithTies() && view.sortValuesInEachRecord != nil {
+	if clause.WithTies() && view.sortValuesInEachRecord != nil && 0 < limit {
 		bottomSortValues := view.sortValuesInEachRecord[limit-1]
 		for limit < view.RecordLen() {
 			if !bottomSortValues.EquivalentTo(view.sortValuesInEachRecord[limit]) {
